@@ -347,7 +347,13 @@ add_using(CPPUsing *using_decl, CPPScope *global_scope,
     }
   } else {
     CPPDeclaration *decl = using_decl->_ident->find_symbol(this, global_scope);
-    if (decl != nullptr) {
+    CPPExtensionType *et = (decl != nullptr) ? decl->as_extension_type() : nullptr;
+    if (et != nullptr && decl->as_typedef_type() == nullptr) {
+      // A class or enum: make it known by its unqualified name in this scope
+      // (handle_declaration would register it under its scoped name).
+      _types.insert(Types::value_type(et->get_simple_name(), et));
+
+    } else if (decl != nullptr) {
       handle_declaration(decl, global_scope, error_sink);
     } else {
       if (error_sink != nullptr) {
